@@ -190,7 +190,7 @@ def field_entries(td, f):
         if s.get("name") is not None:
             ps.append(("name", "ident", s["name"]))
         if s.get("method"):
-            ps.append(("method", "path", s["method"]))
+            ps.append(("method", "path", s.get("method_spelling") or s["method"]))
         if s.get("rank") is not None:
             ps.append(("rank", "int", s["rank"]))
         if s.get("expr") is not None:
